@@ -31,4 +31,47 @@ var props = []Prop{
 		Stubs:       []string{"exporter.MustExport -> Q"},
 		Assumptions: commonAssumptions,
 	},
+	{
+		ID: "C11", Level: "model_checking",
+		Harnesses: []HSpec{
+			{Dir: "internal/pkg/input", Fn: "VF_C11_meta_pkg", MaxStrLen: [2]int{12, 16}},
+			{Dir: "internal/pkg/input", Fn: "VF_C11_meta_type", MaxStrLen: [2]int{12, 16}},
+			{Dir: "internal/pkg/input", Fn: "VF_C11_meta_ctor", MaxStrLen: [2]int{12, 16}},
+			{Dir: "internal/pkg/input", Fn: "VF_C11_import_alias", MaxStrLen: [2]int{12, 16}},
+			{Dir: "internal/pkg/input", Fn: "VF_C11_import_path", MaxStrLen: [2]int{12, 16}},
+			{Dir: "internal/pkg/input", Fn: "VF_C11_fn_name", MaxStrLen: [2]int{12, 16}},
+			{Dir: "internal/pkg/input", Fn: "VF_C11_fn_gofunc", MaxStrLen: [2]int{12, 16}},
+			{Dir: "internal/pkg/input", Fn: "VF_C11_param_name", MaxStrLen: [2]int{12, 16}},
+			{Dir: "internal/pkg/input", Fn: "VF_C11_param_value", MaxStrLen: [2]int{12, 16}},
+			{Dir: "internal/pkg/input", Fn: "VF_C11_service_name", MaxStrLen: [2]int{12, 16}},
+			{Dir: "internal/pkg/input", Fn: "VF_C11_getter", MaxStrLen: [2]int{12, 16}},
+			{Dir: "internal/pkg/input", Fn: "VF_C11_type", MaxStrLen: [2]int{12, 16}},
+			{Dir: "internal/pkg/input", Fn: "VF_C11_value", MaxStrLen: [2]int{12, 16}},
+			{Dir: "internal/pkg/input", Fn: "VF_C11_constructor", MaxStrLen: [2]int{12, 16}},
+			{Dir: "internal/pkg/input", Fn: "VF_C11_args", MaxStrLen: [2]int{12, 16}},
+			{Dir: "internal/pkg/input", Fn: "VF_C11_call", MaxStrLen: [2]int{12, 16}},
+			{Dir: "internal/pkg/input", Fn: "VF_C11_field", MaxStrLen: [2]int{12, 16}},
+			{Dir: "internal/pkg/input", Fn: "VF_C11_tags", MaxStrLen: [2]int{12, 16}},
+			{Dir: "internal/pkg/input", Fn: "VF_C11_decorator", MaxStrLen: [2]int{12, 16}},
+			{Dir: "internal/pkg/input", Fn: "VF_C11_creation", MaxStrLen: [2]int{12, 16}},
+			{Dir: "internal/pkg/input", Fn: "VF_C11_joint", MaxStrLen: [2]int{12, 16}},
+			{Dir: "internal/pkg/input", Fn: "VF_C11_todo", MaxStrLen: [2]int{12, 16}},
+		},
+		Bounds:      []string{"one symbolic string per grammar position, <= 6 code points quick / <= 9-10 thorough (getter 8/14), full Unicode alphabet; YAML values of every kind yaml.v3 produces, depth 1", "joint reporting: 4 simultaneous defects, strings <= 4"},
+		Outside:     []string{"YAML node-kind errors raised inside yaml.v3 before validation", "violations detected only by later stages (pattern errors, must-getter without getter)", "strings beyond the bound"},
+		Stubs:       []string{"reflect.TypeOf(container.New()) -> method set computed with go/types from the pinned runtime module"},
+		Assumptions: commonAssumptions,
+	},
+	{
+		ID: "C18", Level: "model_checking",
+		Harnesses: []HSpec{
+			{Dir: "internal/pkg/input", Fn: "VF_C18_gate", MaxStrLen: [2]int{16, 16}},
+			{Dir: "internal/pkg/input", Fn: "VF_C18_parse", MaxStrLen: [2]int{16, 16}},
+			{Dir: "internal/pkg/input", Fn: "VF_C18_skip", MaxStrLen: [2]int{16, 16}},
+		},
+		Bounds:      []string{"B and V = maj.min.patch+suffix, each numeral 0..99 canonical, suffix an ASCII [-+][0-9A-Za-z.-]* of <= 2 (quick) / 3 (thorough) characters", "arbitrary ASCII B and V of <= 5 / 7 characters for the parse and skip rules; V of every YAML scalar kind"},
+		Outside:     []string{"numerals of 3+ digits", "non-ASCII version strings (byte-level code in x/mod/semver is executed under an ASCII guard)", "main.buildVersion's stripping of the linker-provided v (one strings.TrimPrefix)"},
+		Stubs:       []string{"none: golang.org/x/mod/semver is executed as SSA"},
+		Assumptions: commonAssumptions,
+	},
 }
